@@ -7,7 +7,7 @@ Open Scope Z_scope.
 
 Definition enc_err (e : jerr) : Z :=
   match e with HasEmptyBuckets => 1 | FindMagicFailure => 2 | JRuntimeError => 3 | JZeroDivision => 4
-             | JOutOfFuel => 5 | JValueError => 6 end.
+             | JOutOfFuel => 5 | JValueError => 6 | JKeyError => 7 end.
 Definition enc_buckets (bk : buckets) : list Z := flat_map (fun p => fst p :: zlen (snd p) :: snd p) bk.
 Definition enc_sol (sol : list bucket) : list Z :=
   flat_map (fun b => b_id b :: b_magic b :: zlen (b_ids b) :: (b_ids b ++ image_order (b_ids b) (b_magic b))) sol.
